@@ -254,6 +254,29 @@ PROPS["C02"] = dict(
     assumptions=ASSUME_COMMON,
 )
 
+PROPS["C06"] = dict(
+    units=[dict(name="c06", src="props/c06.cpp", deps=["lib/pwc.hpp"])],
+    rule="case = numeric type x integrator x 2..5 iterations of 10..2000 calls x integrand family (4) x 0..2 distributions "
+         "(1-d, 2-d) x poison set: shape {empty, first call, last call, one in the middle, all, 2 %, probability p} x kind "
+         "{mixed, NaN, +inf, -inf} x source {return value, distribution datum (per datum), multi-channel weight: NaN / inf "
+         "jacobian, all densities zero}; paired run zeroes exactly the poisoned data (sane map); non-trivial: an adaptive "
+         "integrator with an iteration that has both poisoned and finite non-zero evaluations, or a poisoned distribution "
+         "datum; distinct = distinct description",
+    quick=dict(shards=8, cases=1200),
+    thorough=dict(shards=16, cases=60000),
+    floors={"poisoned-return-value": 0.3, "poisoned-distribution-datum": 0.1, "poisoned-weight": 0.05, "all-poisoned": 0.05,
+            "VEGAS": 0.2, "MULTI": 0.2},
+    level_text="metamorphic pairing over generated poison sets: after every iteration the poisoned run's sums, sums of "
+               "squares, finite counts (also per bin), adjustment data, grid / channel weights and the generator are "
+               "bit-identical to the run in which exactly the poisoned data are zero; non_zero_calls differs by exactly "
+               "the number of poisoned evaluations; every reported number is finite; exploration over inputs and histories",
+    level_note="trusted: the pairing rule (per datum; the paired run of a poisoned weight uses the sane map and a zero "
+               "integrand value); finite values whose square overflows are outside the property and not generated; slots "
+               "of disabled channels are not judged",
+    technique="rapidcheck over choice tapes; metamorphic paired-run oracle with bit identity",
+    assumptions=ASSUME_COMMON,
+)
+
 NOT_APPLICABLE = {}
 
 ENGINES = [
